@@ -611,6 +611,7 @@ def install(w):
     M['hint::black_box'] = ident
     M['any::type_name'] = lambda ex, c, a: '<type_name>'
     M['<str as ToString>::to_string'] = lambda ex, c, a: deref(a[0])
+    M['<_ as ToString>::to_string'] = lambda ex, c, a: '<to_string>'
     M['<String as Deref>::deref'] = ident
 
     M['NonZero::get'] = lambda ex, c, a: deref(a[0])
